@@ -57,6 +57,7 @@ def gen_script(rng, mi, ms, lim):
                     'rec_ctx', 'rec_ctx', 'rec_ctx_eval',
                     'self_eval', 'rec_if', 'rec_try', 'rec_loop', 'nest_if',
                     'nest_try', 'random', 'shake', 'mult', 'not', 'trunc',
+                    'trunc',
                     'push2_past', 'raw', 'loop_count', 'reverse_swap',
                     'cache_flood', 'split_concat', 'nested_loops', 'eval_rec',
                     'merkle_eval', 'big_item', 'depth_items', 'producer',
@@ -183,7 +184,30 @@ def gen_script(rng, mi, ms, lim):
             O('MERKLEVAL') + bytes(32), O('SWAP') + b'\x00\x01',
             O('CHECK_MULTISIG') + b'\x00\x01\x01', isa.TRY(O('TRUE'), O('TRUE')),
             O('DIV_FLOAT') + bytes(4)))
-        return k, O('TRUE') + full[:rng.randrange(1, len(full))]
+        # every block-taking instruction, cut short, behind a TRUE and behind
+        # a FALSE (the untaken branch has to be skipped within bounds too),
+        # also inside a function body and an evaluated script
+        cond = rng.choice((O('TRUE'), O('FALSE'), O('FALSE'),
+                           O('FALSE') + O('TRUE'), O('TRUE') + O('FALSE')))
+        if rng.random() < 0.5:
+            body = O('TRUE') * rng.randrange(1, 6)
+            full = rng.choice((
+                isa.IF(body), isa.IF_ELSE(body, body), isa.LOOP(body),
+                isa.TRY(body, body), isa.DEF(0, body)))
+            cut = full[:rng.randrange(1, len(full))]
+            # or: whole block present but the declared size lies
+            if rng.random() < 0.4:
+                lie = (len(body) + rng.choice((1, 2, 255, 60000))) & 0xffff
+                cut = full[:1] + lie.to_bytes(2, 'big') + full[3:]
+        else:
+            cut = full[:rng.randrange(1, len(full))]
+        prog = cond + cut
+        w = rng.random()
+        if w < 0.2:
+            prog = isa.DEF(1, prog) + isa.CALL(1)
+        elif w < 0.4:
+            prog = isa.push(prog) + O('EVAL')
+        return k, prog
     if k == 'push2_past':
         n = rng.choice((1, 255, 256, 32767, 32768, 65535))
         return k, b'\x04' + n.to_bytes(2, 'big') + bytes(rng.randrange(0, 4))
